@@ -1032,3 +1032,12 @@ impl<Item, Err, O: Observer<Item, Err> + Clone> Observer<Item, Err> for HelperCl
   fn complete(self) { self.0.complete() }
   fn is_finished(&self) -> bool { self.0.is_finished() }
 }
+
+// ---------------------------------------------------------------- C03.S11
+/// "second item" built with the wrong count
+pub fn ctl_second<S: ObservableExt<u8, Infallible>>(s: S) -> crate::ops::take::TakeOp<crate::ops::skip::SkipOp<S>> { s.skip(2).take(1) }
+/// "minimum" that keeps the greater value
+pub fn ctl_smallest<S: ObservableExt<u8, Infallible>>(s: S) -> impl ObservableExt<u8, Infallible> {
+  let pick = |m: Option<u8>, v: u8| match m { Some(m) if m > v => Some(m), _ => Some(v) };
+  s.scan_initial(None, pick as fn(Option<u8>, u8) -> Option<u8>).last().map(|v| v.unwrap())
+}
